@@ -1,56 +1,80 @@
 ------------------------------ MODULE MC_Gauge ------------------------------
 (* Bounded model of gauge lifecycles over Gauge.tla (integer instance).                               *)
-(*   actors : NU farmers, 2 pools (pool 1 = master candidates, pool 2 = child), one epoch duration D   *)
+(*   actors : NU farmers, 2 pools (pool 1 = master candidates, pool 2 = child), epoch duration D for     *)
+(*            created gauges; with WithSwap the two swap-fee gauges every pool creation registers         *)
+(*            (duration 2*D, deposit = fees pulled from the pair's collector) are part of the state       *)
 (*   actions: Create(template) / Farm / Unfarm / Price(pool 1 mode) / Advance(k time units)            *)
+(*            Fees(pool, amount) = swap fees arrive at the collector in the current distribution denom   *)
+(*            SetDenom(d)        = governance changes the app's SwapFeeDistrDenom                         *)
 (* Time is kept relative (now = 0 after every step) so the state space is finite. Every transition is  *)
 (* printed as a "T" line; `vh gauge --graph` walks this graph on the real application (each edge once, *)
 (* on nested cache branches) and Trace_Gauge judges what the real code did.                            *)
 (* Payouts in the model are the ideal ones floor(alloc*e/total); the real ones are taken from the log.  *)
 EXTENDS GaugeInt, TLC, Json
-CONSTANTS NU, MaxFarm, MaxGauges, Templates, Steps, D, FarmPools, Amts, Modes, Emit
+CONSTANTS NU, MaxFarm, MaxGauges, Templates, Steps, D, FarmPools, Amts, Modes, Emit,
+          WithSwap, FeeAmts, FeeBudget, FeeDenoms, GovBudget
 
 VARIABLE s
 Big == 1000000
-T1 == [dep |-> 7, tot |-> 3, pool |-> 1, master |-> FALSE, childs |-> <<>>, delay |-> 0]
-T2 == [dep |-> 5, tot |-> 2, pool |-> 1, master |-> TRUE, childs |-> <<2>>, delay |-> 3]
-T3 == [dep |-> 3, tot |-> 3, pool |-> 2, master |-> TRUE, childs |-> <<>>, delay |-> 0]
-T4 == [dep |-> 11, tot |-> 4, pool |-> 1, master |-> TRUE, childs |-> <<>>, delay |-> 1]
-T5 == [dep |-> 2, tot |-> 3, pool |-> 1, master |-> FALSE, childs |-> <<>>, delay |-> 0]   \* rejected: deposit < epochs
-T6 == [dep |-> 4, tot |-> 2, pool |-> 1, master |-> FALSE, childs |-> <<1>>, delay |-> 0]  \* rejected: child = master
+T1 == [dep |-> 7, tot |-> 3, pool |-> 1, master |-> FALSE, childs |-> <<>>, delay |-> 0, den |-> 0]
+T2 == [dep |-> 5, tot |-> 2, pool |-> 1, master |-> TRUE, childs |-> <<2>>, delay |-> 3, den |-> 0]
+T3 == [dep |-> 3, tot |-> 3, pool |-> 2, master |-> TRUE, childs |-> <<>>, delay |-> 0, den |-> 0]
+T4 == [dep |-> 11, tot |-> 4, pool |-> 1, master |-> TRUE, childs |-> <<>>, delay |-> 1, den |-> 0]
+T5 == [dep |-> 2, tot |-> 3, pool |-> 1, master |-> FALSE, childs |-> <<>>, delay |-> 0, den |-> 0]   \* rejected: deposit < epochs
+T6 == [dep |-> 4, tot |-> 2, pool |-> 1, master |-> FALSE, childs |-> <<1>>, delay |-> 0, den |-> 0]  \* rejected: child = master
+T7 == [dep |-> 5, tot |-> 2, pool |-> 1, master |-> FALSE, childs |-> <<>>, delay |-> 0, den |-> 102] \* paid in fee denom B
 TplSingle == {T1, T5}
+TplFee == {T7}
 TplMaster == {T2, T6}
 TplTwo == {T1, T2}
 TplMasterAll == {T2, T3, T4, T6}
 TplThorough == {T1, T2, T3, T4, T5, T6}
 
-Pool1(mode) == [exists |-> TRUE, disabled |-> FALSE, dis |-> FALSE,
+FeeA == 101
+FeeB == 102
+NSwap == IF WithSwap THEN 2 ELSE 0
+AllDenoms == (1..(NSwap + MaxGauges)) \cup {FeeA, FeeB}
+NoColl == [d \in {FeeA, FeeB} |-> 0]
+Pool1(mode, coll) == [exists |-> TRUE, disabled |-> FALSE, dis |-> FALSE,
                 qOn |-> mode = "q", bOn |-> mode # "off", qAct |-> mode = "q", bAct |-> mode # "off",
-                qW |-> 1, qD |-> 1, bW |-> 2, bD |-> 1, mode |-> mode]
+                qW |-> 1, qD |-> 1, bW |-> 2, bD |-> 1, mode |-> mode, coll |-> coll]
 Pool2 == [exists |-> TRUE, disabled |-> FALSE, dis |-> FALSE, qOn |-> TRUE, bOn |-> TRUE, qAct |-> TRUE, bAct |-> TRUE,
-          qW |-> 3, qD |-> 1, bW |-> 1, bD |-> 1, mode |-> "q"]
+          qW |-> 3, qD |-> 1, bW |-> 1, bD |-> 1, mode |-> "q", coll |-> NoColl]
 Pos(n) == [pc |-> n, xq |-> n, xb |-> n]
+SwapGauge(p) == [id |-> p, kind |-> "swap", denom |-> FeeA, ddenom |-> FeeA, dep |-> 0, dist |-> 0, trig |-> 0, tot |-> 1,
+                 active |-> TRUE, start |-> 0, dur |-> 2 * D, pool |-> p, master |-> FALSE, childs |-> <<>>]
 
-Init == s = [gauges |-> <<>>, epochs |-> <<>>, pools |-> <<Pool1("q"), Pool2>>,
-             users |-> [u \in 1..NU |-> [pos |-> <<Pos(0), Pos(0)>>]], cust |-> <<>>]
+Init == s = [gauges |-> IF WithSwap THEN <<SwapGauge(1), SwapGauge(2)>> ELSE <<>>,
+             epochs |-> IF WithSwap THEN <<NewEpoch(2 * D, 0)>> ELSE <<>>,
+             pools |-> <<Pool1("q", NoColl), Pool2>>,
+             users |-> [u \in 1..NU |-> [pos |-> <<Pos(0), Pos(0)>>]],
+             cust |-> [d \in AllDenoms |-> 0], distr |-> FeeA, fees |-> FeeBudget, govs |-> GovBudget]
 
 Out(a, args, post) ==
   IF Emit THEN PrintT(<<"T", ToJson([a |-> a, args |-> args, pre |-> s, post |-> post])>>) ELSE TRUE
 
-Live == Len(s.gauges) < MaxGauges \/ \E i \in 1..Len(s.gauges) : s.gauges[i].active
+IsReg(i) == s.gauges[i].kind = "reg"
+NReg == Len(s.gauges) - NSwap
+Live == \/ NReg < MaxGauges \/ \E i \in 1..Len(s.gauges) : IsReg(i) /\ s.gauges[i].active
+        \/ (WithSwap /\ s.fees > 0)
+        \/ (WithSwap /\ \E i \in 1..Len(s.gauges) : (~IsReg(i) /\ s.gauges[i].dep > 0))
+        \/ (WithSwap /\ \E d \in {FeeA, FeeB} : s.pools[1].coll[d] > 0)
 
 (* ---- MsgCreateGauge ---- *)
 DoCreate(t) ==
-  LET a == [dep |-> t.dep, denom |-> Len(s.gauges) + 1, tot |-> t.tot, dur |-> D, start |-> t.delay, pool |-> t.pool,
+  LET id == Len(s.gauges) + 1
+      dn == IF t.den = 0 THEN id ELSE t.den
+      a == [dep |-> t.dep, denom |-> dn, tot |-> t.tot, dur |-> D, start |-> t.delay, pool |-> t.pool,
             master |-> t.master, childs |-> t.childs, funds |-> Big]
       ok == CreateOk(s.pools, 0, a, D)
-      s2 == IF ok THEN [s EXCEPT !.gauges = Append(@, Created(Len(s.gauges) + 1, 0, a)),
-                                 !.cust = Append(@, t.dep),
+      s2 == IF ok THEN [s EXCEPT !.gauges = Append(@, Created(id, 0, a)),
+                                 !.cust[dn] = @ + t.dep,
                                  !.epochs = IF HasEpoch(@, D) THEN @ ELSE Append(@, NewEpoch(D, 0))]
             ELSE s
-  IN /\ Len(s.gauges) < MaxGauges
+  IN /\ NReg < MaxGauges
      /\ s' = s2
      /\ Out("Create", [dep |-> t.dep, tot |-> t.tot, pool |-> t.pool, master |-> t.master, childs |-> t.childs,
-                       delay |-> t.delay, ok |-> ok], s2)
+                       delay |-> t.delay, den |-> t.den, ok |-> ok], s2)
 
 (* ---- farming positions (the queue/activation mechanics belong to x/liquidity; here: active amount) ---- *)
 DoFarm(u, p, amt) ==
@@ -63,36 +87,62 @@ DoUnfarm(u, p, amt) ==
   IN /\ n >= 0 /\ s' = s2 /\ Out("Unfarm", [u |-> u, p |-> p, amt |-> amt], s2)
 
 DoPrice(mode) ==
-  LET s2 == [s EXCEPT !.pools[1] = Pool1(mode)]
+  LET s2 == [s EXCEPT !.pools[1] = Pool1(mode, s.pools[1].coll)]
   IN /\ s.pools[1].mode # mode /\ s' = s2 /\ Out("Price", [p |-> 1, mode |-> mode], s2)
+
+(* ---- swap fees arrive at pool 1's collector; governance changes the distribution denom ---- *)
+DoFees(amt) ==
+  LET s2 == [s EXCEPT !.pools[1].coll[s.distr] = @ + amt, !.fees = @ - 1]
+  IN /\ WithSwap /\ s.fees > 0 /\ s' = s2 /\ Out("Fees", [p |-> 1, amt |-> amt, d |-> s.distr], s2)
+DoSetDenom(d) ==
+  LET s2 == [s EXCEPT !.distr = d, !.govs = @ - 1]
+  IN /\ WithSwap /\ s.govs > 0 /\ d # s.distr /\ s' = s2 /\ Out("SetDenom", [d |-> d], s2)
 
 (* ---- time passes: EndBlock now, BeginBlock at now + k ---- *)
 IdealPay(g, u, alloc, tot) == IF tot = 0 THEN 0 ELSE (alloc * Elig(s.pools, g, s.users[u])) \div tot
 RECURSIVE SumTo(_, _)
 SumTo(f, n) == IF n = 0 THEN 0 ELSE f[n] + SumTo(f, n - 1)
+PaidOut(g, alloc) == LET tot == TotalElig(s.pools, g, s.users)
+                         pays == [u \in 1..NU |-> IdealPay(g, u, alloc, tot)]
+                     IN SumTo(pays, NU)
 
-GaugeAfter(g, now) ==     \* [g |-> gauge', paid |-> amount leaving custody]
-  IF GaugeEnds(g, now) THEN [g |-> [g EXCEPT !.active = FALSE], paid |-> 0]
-  ELSE IF GaugeSkips(s.pools, g, now) THEN [g |-> g, paid |-> 0]
-  ELSE LET alloc == AllocOf(g.dep, g.tot, g.trig + 1)
-           tot == TotalElig(s.pools, g, s.users)
-           pays == [u \in 1..NU |-> IdealPay(g, u, alloc, tot)]
-           paid == SumTo(pays, NU)
-       IN [g |-> [g EXCEPT !.trig = @ + 1, !.dist = @ + paid], paid |-> paid]
+(* [g |-> gauge', paid |-> amount leaving custody in g.denom, recv |-> amount entering custody in s.distr] *)
+GaugeAfter(g, now) ==
+  IF GaugeEnds(g, now) THEN [g |-> [g EXCEPT !.active = FALSE], paid |-> 0, recv |-> 0]
+  ELSE IF GaugeSkips(s.pools, g, now) THEN [g |-> g, paid |-> 0, recv |-> 0]
+  ELSE LET paid == PaidOut(g, AllocOf(g.dep, g.tot, g.trig + 1))
+       IN [g |-> [g EXCEPT !.trig = @ + 1, !.dist = @ + paid], paid |-> paid, recv |-> 0]
+SwapAfter(g) ==
+  IF SwapBlocked(s.pools, g) THEN [g |-> g, paid |-> 0, recv |-> 0]
+  ELSE LET paid == IF g.dep = 0 THEN 0 ELSE PaidOut(g, g.dep)
+           recv == s.pools[g.pool].coll[s.distr]
+           g2 == [g EXCEPT !.trig = @ + 1, !.denom = s.distr,
+                           !.dep = (IF g.denom = s.distr THEN g.dep - paid ELSE 0) + recv,
+                           !.ddenom = IF g.dep = 0 THEN @ ELSE g.denom,
+                           !.dist = IF g.dep = 0 THEN @ ELSE IF g.ddenom = g.denom THEN @ + paid ELSE paid]
+       IN [g |-> g2, paid |-> paid, recv |-> recv]
 
-Shift(g, k) == [g EXCEPT !.start = IF @ - k < 0 THEN 0 ELSE @ - k]
+Shift(g, k) == IF g.kind = "swap" THEN [g EXCEPT !.trig = 0, !.dist = 0]       \* unbounded counters are not part of the model state
+               ELSE [g EXCEPT !.start = IF @ - k < 0 THEN 0 ELSE @ - k]
 
 DoAdvance(k) ==
   LET steps == [i \in 1..Len(s.epochs) |-> EpochStep(s.epochs[i], k)]
       trig(dur) == \E i \in 1..Len(s.epochs) : s.epochs[i].dur = dur /\ steps[i].trigger
-      res == [i \in 1..Len(s.gauges) |-> IF trig(s.gauges[i].dur) THEN GaugeAfter(s.gauges[i], k)
-                                         ELSE [g |-> s.gauges[i], paid |-> 0]]
-      s2 == [s EXCEPT !.gauges = [i \in 1..Len(s.gauges) |-> Shift(res[i].g, k)],
-                      !.cust = [i \in 1..Len(s.cust) |-> s.cust[i] - res[i].paid],
+      n == Len(s.gauges)
+      res == [i \in 1..n |-> IF ~trig(s.gauges[i].dur) THEN [g |-> s.gauges[i], paid |-> 0, recv |-> 0]
+                              ELSE IF IsReg(i) THEN GaugeAfter(s.gauges[i], k) ELSE SwapAfter(s.gauges[i])]
+      out(d) == SumTo([i \in 1..n |-> IF s.gauges[i].denom = d THEN res[i].paid ELSE 0], n)
+      inn(d) == IF d = s.distr THEN SumTo([i \in 1..n |-> res[i].recv], n) ELSE 0
+      pulled(p) == \E i \in 1..n : ~IsReg(i) /\ s.gauges[i].pool = p /\ trig(s.gauges[i].dur) /\ ~SwapBlocked(s.pools, s.gauges[i])
+      s2 == [s EXCEPT !.gauges = [i \in 1..n |-> Shift(res[i].g, k)],
+                      !.cust = [d \in AllDenoms |-> s.cust[d] - out(d) + inn(d)],
+                      !.pools = [p \in 1..Len(s.pools) |-> IF pulled(p) THEN [s.pools[p] EXCEPT !.coll[s.distr] = 0] ELSE s.pools[p]],
                       !.epochs = [i \in 1..Len(s.epochs) |-> [steps[i].ep EXCEPT !.cur = @ - k, !.n = 0]]]
   IN /\ s' = s2
-     /\ \A i \in 1..Len(s.gauges) :     \* the deterministic model step is one of the outcomes the relation admits
-           trig(s.gauges[i].dur) => GaugeEpochRel(s.pools, s.gauges[i], k, res[i].paid, res[i].g)
+     /\ \A i \in 1..n :     \* the deterministic model step is one of the outcomes the relation admits
+           trig(s.gauges[i].dur) =>
+              IF IsReg(i) THEN GaugeEpochRel(s.pools, s.gauges[i], k, res[i].paid, res[i].g)
+              ELSE SwapEpochRel(s.pools, s.gauges[i], s.distr, res[i].recv, res[i].paid, res[i].g)
      /\ Out("Advance", [k |-> k], s2)
 
 Next == /\ Live
@@ -100,12 +150,14 @@ Next == /\ Live
            \/ \E u \in 1..NU, p \in FarmPools, amt \in Amts : DoFarm(u, p, amt) \/ DoUnfarm(u, p, amt)
            \/ \E m \in Modes : DoPrice(m)
            \/ \E k \in Steps : DoAdvance(k)
+           \/ \E amt \in FeeAmts : DoFees(amt)
+           \/ \E d \in FeeDenoms : DoSetDenom(d)
 Spec == Init /\ [][Next]_s
 
 (* ---- C19 on the model ---- *)
-Cumulative == \A i \in 1..Len(s.gauges) : CumulativeOK(s.gauges[i])
-Custody    == \A d \in 1..Len(s.cust) : CustodyOK(s.cust[d], s.gauges, <<>>, d)
-SplitExact == \A i \in 1..Len(s.gauges) : SplitSumsTo(Split(s.gauges[i].dep, s.gauges[i].tot), s.gauges[i].dep)
+Cumulative == \A i \in 1..Len(s.gauges) : IsReg(i) => CumulativeOK(s.gauges[i])
+Custody    == \A d \in AllDenoms : CustodyOK(s.cust[d], s.gauges, <<>>, d)
+SplitExact == \A i \in 1..Len(s.gauges) : IsReg(i) => SplitSumsTo(Split(s.gauges[i].dep, s.gauges[i].tot), s.gauges[i].dep)
 (* a finished gauge has paid at most its deposit and exactly `tot` epochs were triggered *)
-Finished   == \A i \in 1..Len(s.gauges) : ~s.gauges[i].active => s.gauges[i].trig = s.gauges[i].tot
+Finished   == \A i \in 1..Len(s.gauges) : IsReg(i) /\ ~s.gauges[i].active => s.gauges[i].trig = s.gauges[i].tot
 =============================================================================
